@@ -37,6 +37,7 @@
 #include "testkeys/PSK/tls13_psk.h"
 #include "testkeys/OCSP/responses/OCSP_256_EC_GOOD.h"
 #include "testkeys/OCSP/responses/OCSP_256_EC_REVOKED.h"
+#include "assets/pathlen_chain.h"
 #include "keys.h"
 
 #define KM(c, k, a) { c, sizeof c, k, sizeof k, a, sizeof a }
@@ -53,6 +54,7 @@ int vsim_keymat(int kind, struct vsim_keymat *m)
         KM(EC521, EC521KEY, EC521CA),             /* KK_EC521 */
     };
     if (kind == 9) { static const struct vsim_keymat S = KM(EC384_S384, EC384KEY, EC384CA_S384); *m = S; return 1; }   /* KK_EC384_SHA384 */
+    if (kind == 10) { static const struct vsim_keymat S = KM(VSIM_PL_CHAIN, VSIM_PL_KEY, VSIM_PL_ROOT); *m = S; return 1; }   /* KK_EC256_PATHLEN: leaf + sub CA under a pathlen:0 root */
     if (kind < 1 || kind > 7) { return 0; }
     *m = T[kind];
     return 1;
